@@ -47,7 +47,7 @@ EXC = {"ValueError": "valueError", "OverflowError": "overflowError", "ZeroDivisi
 
 def atoms(ty):
     """number of integer/bool atoms a parameter of type `ty` is built from"""
-    return 2 if ty == "Vec" else 1
+    return 2 if ty in ("Vec", "Holder", "Span") else 1
 
 
 def grid(types, rng, custom=None):
@@ -60,6 +60,10 @@ def grid(types, rng, custom=None):
             pools.append([(False,), (True,)])
         elif t == "Vec":
             pools.append([(a, b) for a in SMALL for b in (-500, -3, 0, 2, 99, 500)])
+        elif t == "Span":
+            pools.append([(a, b) for a in (-700, -101, -7, 0, 3, 50, 99) for b in (-650, -8, -7, 0, 2, 5, 60, 120, 1001)])
+        elif t == "Holder":  # (multiplier of its LinearScaler, bias)
+            pools.append([(a, b) for a in (-3, 0, 1, 2, 7, 60) for b in (-1, 0, 5, 50, 1000)])
         else:
             pools.append([(a,) for a in INTS])
     total = 1
@@ -93,6 +97,10 @@ def lean_show(ty, e):
         return f"(let _u : Unit := {e}; \"None\")"
     if ty == "Vec":
         return f"(\"Vec(\" ++ toString ({e}).x ++ \", \" ++ toString ({e}).y ++ \")\")"
+    if ty == "Span":
+        return f"(\"Span(\" ++ toString ({e}).lo ++ \", \" ++ toString ({e}).hi ++ \")\")"
+    if isinstance(ty, str) and ty.startswith("?"):
+        return f"(match {e} with | none => \"None\" | some o' => {lean_show(ty[1:], \"o'\")})"
     raise ValueError(ty)
 
 
@@ -107,6 +115,8 @@ def py_show(v):
         return "(" + ", ".join(py_show(x) for x in v) + ")"
     if type(v).__name__ == "Vec":
         return f"Vec({v._Vec__x}, {v._Vec__y})"
+    if type(v).__name__ == "Span":
+        return f"Span({v._Span__lo}, {v._Span__hi})"
     raise ValueError(repr(v))
 
 
@@ -118,6 +128,8 @@ def run(keep=False) -> dict:
     rgen = py2lean.Gen("SelftestRefuse", refuse, py2lean.Source(ROOT))
     rgen.translate_all()
     for t in rgen.targets:
+        if t.function not in refuse["expect"]:
+            continue  # an auxiliary target of the must-refuse corpus (translated, called by a refused one)
         want = refuse["expect"][t.function]
         err = getattr(t, "error", "")
         ok = t.state == "failed" and err.startswith("UNSUPPORTED: ") and want in err
@@ -149,6 +161,8 @@ def run(keep=False) -> dict:
               "      let xs := (ln.splitOn \" \").filterMap String.toInt?",
               "      IO.println (f xs)", ""]
         for idx, t in enumerate(gen.targets):
+            if t.d.get("selftest_skip"):
+                continue  # result type cannot be rendered (an object); exercised through its callers
             types = [ty for _, ty in t.lean_params()]
             cg = t.d.get("selftest_grid")  # e.g. {"b": [..]}: inputs for parameters whose size drives the running time
             custom = [cg.get(n) if cg else None for n, _ in t.lean_params()]
@@ -166,6 +180,14 @@ def run(keep=False) -> dict:
                 if ty == "Vec":
                     names += [f"a{k}", f"a{k+1}"]
                     args.append(f"(⟨a{k}, a{k+1}⟩ : Vec)")
+                    k += 2
+                elif ty == "Span":
+                    names += [f"a{k}", f"a{k+1}"]
+                    args.append(f"(⟨a{k}, a{k+1}⟩ : Span)")
+                    k += 2
+                elif ty == "Holder":
+                    names += [f"a{k}", f"a{k+1}"]
+                    args.append(f"(⟨⟨fun x => a{k} * x + 1, fun v l => ckv v (-l) l⟩, a{k+1}⟩ : Holder)")
                     k += 2
                 elif ty == "Bool":
                     names.append(f"a{k}")
@@ -227,10 +249,14 @@ def run(keep=False) -> dict:
                 continue
             bad = 0
             for c_in, l_res in zip(combos, got):
-                args = [Vec._ctor(x=p[0], y=p[1]) if ty == "Vec" else p[0] for ty, p in zip(types, c_in)]
+                args = [Vec._ctor(x=p[0], y=p[1]) if ty == "Vec" else mod.Span._ctor(lo=p[0], hi=p[1]) if ty == "Span" else mod.Holder(mod.LinearScaler(p[0]), p[1]) if ty == "Holder" else p[0]
+                        for ty, p in zip(types, c_in)]
                 pnames = [n for n, _ in t.lean_params()]
                 try:
-                    if t.cls is None:
+                    if t.lambda_params:  # a factory returning a lambda: f(args)(lambda args)
+                        nf = len(pnames) - len(t.lambda_params)
+                        r = getattr(mod, t.function)(*args[:nf])(*args[nf:])
+                    elif t.cls is None:
                         fn = getattr(mod, t.function)
                         r = fn(**dict(zip(pnames, args)))
                     else:
